@@ -115,19 +115,73 @@ func (h HdrSpec) valueClass() string {
 		}
 		return "ascii-single"
 	}
-	needPad := false
-	for _, v := range h.Vals {
-		if len(v)%3 != 0 {
-			needPad = true
+	// the spelling is a property of each value: a value whose length is not a
+	// multiple of 3 is sent with or without '=' padding
+	nPad, nRaw := 0, 0
+	for i, v := range h.Vals {
+		switch {
+		case len(v)%3 == 0:
+		case h.padded(i):
+			nPad++
+		default:
+			nRaw++
 		}
 	}
 	switch {
-	case !needPad:
+	case nPad == 0 && nRaw == 0:
 		return "bin-no-padding-needed"
-	case h.Padded:
+	case nPad > 0 && nRaw > 0:
+		return "bin-mixed-padding"
+	case nPad > 0:
 		return "bin-padded"
 	}
 	return "bin-unpadded"
+}
+
+// spelling is how value i of a -bin header is written on the wire: E empty,
+// N base64 that needs no padding, P padded, U unpadded.
+func (h HdrSpec) spelling(i int) string {
+	v := h.Vals[i]
+	switch {
+	case len(v) == 0:
+		return "E"
+	case len(v)%3 == 0:
+		return "N"
+	case h.padded(i):
+		return "P"
+	}
+	return "U"
+}
+
+// spellings is the pattern of a -bin header's values, in order (e.g. "PUE").
+func (h HdrSpec) spellings() string {
+	var sb strings.Builder
+	for i := range h.Vals {
+		sb.WriteString(h.spelling(i))
+	}
+	return sb.String()
+}
+
+var spellingName = map[string]string{"E": "empty-value", "N": "no-padding-needed-value", "P": "padded-value", "U": "unpadded-value"}
+
+// incomingValueClass is the finding class of a request header whose values
+// reached the handler changed. For a -bin header that mixes padded and
+// unpadded values it also names the spelling of the first value that differs
+// (or that the number of values differs).
+func incomingValueClass(h HdrSpec, got [][]byte) string {
+	cl := h.valueClass()
+	if cl != "bin-mixed-padding" {
+		return cl
+	}
+	if len(got) != len(h.Vals) {
+		return cl + ",value-count"
+	}
+	for i := range got {
+		if !bytes.Equal(got[i], h.Vals[i]) {
+			return cl + "," + spellingName[h.spelling(i)]
+		}
+	}
+	return cl
 }
 
 // strictTrailerFrame checks the gRPC-web trailer frame as sent: every line is
@@ -278,7 +332,7 @@ func check14(c *Case, o *Obs, rec Rec) (vs []viol, inconclusive string) {
 				gb[i] = []byte(v)
 			}
 			if !sameVals(gb, h.Vals) {
-				add("incoming-value", h.valueClass(), fmt.Sprintf("request header %+q sent as %+q reached the handler as %s, want %s", h.Name, h.wire(), showVals(gb), showVals(h.Vals)))
+				add("incoming-value", incomingValueClass(h, gb), fmt.Sprintf("request header %+q sent as %+q reached the handler as %s, want %s", h.Name, h.wire(), showVals(gb), showVals(h.Vals)))
 			}
 		}
 		if strings.Contains(c.Opt, "icept") && c.Method == "Echo" && c.Target == "" {
@@ -293,7 +347,7 @@ func check14(c *Case, o *Obs, rec Rec) (vs []viol, inconclusive string) {
 					gb[i] = []byte(v)
 				}
 				if rec.ISeen && !sameVals(gb, h.Vals) {
-					add("incoming-value-at-interceptor", h.valueClass(), fmt.Sprintf("request header %+q reached the unary interceptor as %s, want %s", h.Name, showVals(gb), showVals(h.Vals)))
+					add("incoming-value-at-interceptor", incomingValueClass(h, gb), fmt.Sprintf("request header %+q reached the unary interceptor as %s, want %s", h.Name, showVals(gb), showVals(h.Vals)))
 					break
 				}
 			}
@@ -742,9 +796,22 @@ func (g *c14Runner) exec(c *Case) {
 		if c.Kind == "C14in" {
 			classes := map[string]bool{}
 			for _, h := range c.ReqHdr {
-				classes[nameClass(h.Name)+"/"+h.valueClass()] = true
+				cl := nameClass(h.Name) + "/" + h.valueClass()
 				r.Count("request_headers_checked", 1)
 				r.Count("request_header_values_checked", len(h.Vals))
+				if h.bin() && len(h.Vals) > 1 {
+					r.Count("bin_request_headers_with_repeated_values_checked", 1)
+				}
+				if h.valueClass() == "bin-mixed-padding" {
+					// one key whose values differ in spelling: the pattern, in
+					// order, is part of the shape
+					cl += "/" + h.spellings()
+					r.Count("bin_request_headers_mixing_padded_and_unpadded_values_checked", 1)
+					for i := range h.Vals {
+						r.Count("mixed_padding_header_values_checked_"+spellingName[h.spelling(i)], 1)
+					}
+				}
+				classes[cl] = true
 			}
 			for cl := range classes {
 				r.Distinct(fmt.Sprintf("in/%s%s/%s/%s/%s/hop=%d", c.Target+":"+c.Opt+":", protoFamily(c.Proto), c.Codec, c.Method, cl, len(c.Hop)))
@@ -824,9 +891,134 @@ func (g *c14Runner) binSweep(proto string, wide bool, vals [][]byte, class strin
 	}
 }
 
+// binOfLen makes a byte string of exactly n bytes with the byte mix of
+// genBinValue.
+func binOfLen(rng *rand.Rand, n int) []byte {
+	b := make([]byte, n)
+	for i := range b {
+		switch rng.Intn(8) {
+		case 0:
+			b[i] = 0xff
+		case 1:
+			b[i] = 0
+		case 2:
+			b[i] = 0xfb
+		default:
+			b[i] = byte(rng.Intn(256))
+		}
+	}
+	return b
+}
+
+// valueShapes are the ways one value of a -bin header can be written: its
+// length modulo 3 (which fixes the length of the unpadded base64 modulo 4:
+// 0, 2, 3) and, where it matters, with or without '=' padding.
+var valueShapes = []struct {
+	res    int // len(value) % 3; -1 = the empty value
+	padded bool
+}{{-1, false}, {0, false}, {1, true}, {1, false}, {2, true}, {2, false}}
+
+// shapedHeader builds one -bin header whose i-th value has shape shapes[i].
+func (g *c14Runner) shapedHeader(name string, shapes []int) HdrSpec {
+	h := HdrSpec{Name: name}
+	for _, si := range shapes {
+		sh := valueShapes[si]
+		n := 0
+		if sh.res >= 0 {
+			k := g.rng.Intn(4)
+			if g.rng.Intn(6) == 0 {
+				k = 4 + g.rng.Intn(60)
+			}
+			n = sh.res + 3*k
+			if n == 0 {
+				n = 3
+			}
+		}
+		h.Vals = append(h.Vals, binOfLen(g.rng, n))
+		h.Pads = append(h.Pads, sh.padded)
+	}
+	return h
+}
+
+// spellingSweep drives the per-value part of "'-bin' values base64-decoded
+// whether or not they are padded, all values in order": one -bin key is
+// repeated 2..3 (thorough: ..4) times and every value has its own spelling.
+// Every sequence over the six value shapes (empty, no padding needed, length
+// 1 / 2 mod 3 each padded and unpadded) is sent on every front whose client
+// chooses the spelling, to the local and to the proxied handler; random longer
+// lists (up to 6 values) and the observer option sets follow. Each request
+// also carries a repeated ASCII header, which must be unaffected.
+func (g *c14Runner) spellingSweep() {
+	r, rng := g.r, g.rng
+	var seqs [][]int
+	var rec func(prefix []int, n int)
+	rec = func(prefix []int, n int) {
+		if n == 0 {
+			seqs = append(seqs, append([]int{}, prefix...))
+			return
+		}
+		for s := range valueShapes {
+			rec(append(prefix, s), n-1)
+		}
+	}
+	for n := 2; n <= r.Pick(3, 4); n++ {
+		rec(nil, n)
+	}
+	send := func(p string, wide bool, lists [][]int, per int, class string) {
+		for i, reqNo := 0, 0; i < len(lists); reqNo++ {
+			used := map[string]bool{}
+			var hdrs []HdrSpec
+			for k := 0; k < per && i < len(lists); k++ {
+				hdrs = append(hdrs, g.shapedHeader(genReqName(rng, g.nameMode(wide), true, used), lists[i]))
+				i++
+			}
+			// an ordinary repeated header next to them, at a random position
+			a := HdrSpec{Name: genReqName(rng, g.nameMode(wide), false, used), Vals: [][]byte{genASCIIValue(rng), genASCIIValue(rng)}}
+			at := rng.Intn(len(hdrs) + 1)
+			hdrs = append(hdrs[:at], append([]HdrSpec{a}, hdrs[at:]...)...)
+			method := "Echo"
+			if reqNo%3 == 2 && p != "grpc-h2c" {
+				method = "SS"
+			}
+			g.inCase(p, method, hdrs, class)
+		}
+	}
+	randomLists := func(n int) [][]int {
+		var out [][]int
+		for i := 0; i < n; i++ {
+			l := make([]int, 2+rng.Intn(5))
+			for j := range l {
+				l[j] = rng.Intn(len(valueShapes))
+			}
+			out = append(out, l)
+		}
+		return out
+	}
+	for _, g.target = range []string{"", "proxy"} {
+		for _, p := range inProtos {
+			if !p.wide {
+				continue // grpc-go spells every value the same way
+			}
+			send(p.proto, p.wide, seqs, 6, "bin-spelling-per-value")
+			send(p.proto, p.wide, randomLists(r.Pick(24, 400)), 3, "bin-spelling-per-value-long")
+		}
+	}
+	for _, g.opt = range []string{"stats", "icept", "stats+icept"} {
+		for _, g.target = range []string{"", "proxy"} {
+			for _, p := range inProtos {
+				if !p.wide {
+					continue
+				}
+				send(p.proto, p.wide, seqs[:36], 6, "bin-spelling-per-value")
+				send(p.proto, p.wide, randomLists(r.Pick(6, 60)), 3, "bin-spelling-per-value-long")
+			}
+		}
+	}
+}
+
 // RunC14 is the metadata fidelity check.
 func RunC14(r *mon.Run) {
-	r.Rule = "(in) requests carrying 1-6 custom headers (names over the HTTP token alphabet in mixed case, 1-3 values, '-bin' names with every byte string of length 0-1 (thorough: 0-2) plus boundary/random strings of length 3..500, each sent as padded and as unpadded base64) on HTTP transcoding, raw gRPC (in-process, h2c), grpc-go, gRPC-web binary/text (in-process, HTTP/1 socket) and the WebSocket handshake, plus a class that adds hop-by-hop headers (Connection, Keep-Alive, Proxy-Connection) on the HTTP/1 fronts, which must not become metadata, with the handler registered on the mux and with the same handler on a grpc.Server back-end proxied through RegisterConn; the handler's metadata.FromIncomingContext is compared with what was sent. (out) a scripted handler sets 0-4 header keys (SetHeader or SendHeader) and 0-4 trailer keys before / after its first reply, optionally one protocol-reserved key with a forged value, optionally with gzip-compressed messages (grpc-encoding, compressed and plain calls interleaved on the same mux), optionally keeps mutating / re-using the metadata.MD object it passed in (values overwritten in place, slices replaced, keys added, keys deleted, header MD refilled and passed to SetTrailer), then succeeds or fails before / after the first reply; HttpBody downloads through larking.AsHTTPBodyWriter and through HttpBody messages with 0 / 1 / many writes and metadata set before the writer is obtained, once it is held, or between writes; the client (HTTP response headers - also for Twirp requests -, grpc-go Header/Trailer call options, gRPC-web headers + trailer frame) must see every non-reserved key with the values it had at the time of the call, byte-equal, no key added later, never the forged value, and the handler's real status; the gRPC-web trailer frame is checked strictly (every line key: value, lower-case token keys, no key beyond the status keys and the handler's trailer keys). Non-trivial = the scripted handler ran; distinct = (direction, protocol, codec, method, name/value class | outcome, header/trailer set shape, reserved key)"
+	r.Rule = "(in) requests carrying 1-6 custom headers (names over the HTTP token alphabet in mixed case, 1-3 values, '-bin' names with every byte string of length 0-1 (thorough: 0-2) plus boundary/random strings of length 3..500, each sent as padded and as unpadded base64; and repeated '-bin' headers whose 2-6 values each have their own spelling: every sequence of length 2-3 (thorough: 2-4) over {empty, length 0 / 1 / 2 mod 3, the latter two padded or unpadded}, plus random longer lists, next to a repeated ASCII header) on HTTP transcoding, raw gRPC (in-process, h2c), grpc-go, gRPC-web binary/text (in-process, HTTP/1 socket) and the WebSocket handshake, plus a class that adds hop-by-hop headers (Connection, Keep-Alive, Proxy-Connection) on the HTTP/1 fronts, which must not become metadata, with the handler registered on the mux and with the same handler on a grpc.Server back-end proxied through RegisterConn; the handler's metadata.FromIncomingContext is compared with what was sent. (out) a scripted handler sets 0-4 header keys (SetHeader or SendHeader) and 0-4 trailer keys before / after its first reply, optionally one protocol-reserved key with a forged value, optionally with gzip-compressed messages (grpc-encoding, compressed and plain calls interleaved on the same mux), optionally keeps mutating / re-using the metadata.MD object it passed in (values overwritten in place, slices replaced, keys added, keys deleted, header MD refilled and passed to SetTrailer), then succeeds or fails before / after the first reply; HttpBody downloads through larking.AsHTTPBodyWriter and through HttpBody messages with 0 / 1 / many writes and metadata set before the writer is obtained, once it is held, or between writes; the client (HTTP response headers - also for Twirp requests -, grpc-go Header/Trailer call options, gRPC-web headers + trailer frame) must see every non-reserved key with the values it had at the time of the call, byte-equal, no key added later, never the forged value, and the handler's real status; the gRPC-web trailer frame is checked strictly (every line key: value, lower-case token keys, no key beyond the status keys and the handler's trailer keys). Non-trivial = the scripted handler ran; distinct = (direction, protocol, codec, method, name/value class | outcome, header/trailer set shape, reserved key)"
 	r.Floor = 120
 	env, err := newEnv()
 	if err != nil {
@@ -1315,6 +1507,12 @@ func RunC14(r *mon.Run) {
 			}
 		}
 	}
+
+	// repeated -bin request headers whose values differ in spelling (own PRNG
+	// stream: the cases above do not depend on this section)
+	g.rng = r.Rand("c14-spelling")
+	g.spellingSweep()
+	g.target, g.opt = "", ""
 
 	r.Assume("proxied target (handler on a grpc.Server reached through RegisterConn): request header names are restricted to gRPC's key alphabet (the grpc-go hop refuses others); response metadata of the back-end carries no delivery obligation through the proxy except the trailer metadata of streaming methods (client-, server-, bidi-streaming) that end OK, which the proxy relays (pinned from the unchanged tree); otherwise only relayed keys are compared (values at call time, byte-equal), plus status, replies, reserved keys and scratch keys")
 	r.Assume("custom names avoid the names HTTP itself or gRPC reserve (host, te, content-*, accept*, grpc-*, ...) and are unique per request after lower-casing; ASCII values are printable without leading/trailing white space; a trailer set after the first reply is only required when the handler got that far")
